@@ -94,7 +94,12 @@ impl Group for HostileGroup {
         let opts = if role == "server" { "cb=1" } else { "" };
         let mut lines = vec![reset_line("hx v", role, &scheme, rng.next() % 100000, opts), reset_line("hx w", role, &scheme, rng.next() % 100000, opts)];
         if role == "client" { lines.push("hx v nobuf".into()); lines.push("hx w nobuf".into()); if rng.chance(1, 2) { lines.push("hx v open".into()); } }
-        for _ in 0..rng.range(2, 14) {
+        // the peer may also go away in the middle of it: from some point on the victim's transport refuses writes (the
+        // replies it owes - keep-alive answers, SYNACKs, settings - fail; it must still end up closed cleanly)
+        let nfeeds = rng.range(2, 14);
+        let gone_at = if rng.chance(1, 4) { Some(rng.below(nfeeds)) } else { None };
+        for fi in 0..nfeeds {
+            if gone_at == Some(fi) { lines.push(format!("hx v budget {}", rng.below(3))); }
             let mut w: Vec<u8> = match rng.below(10) {
                 0 => { let n = rng.below(40) as usize; rng.bytes(n) }
                 1..=5 => hostile_frame(rng, &md5),
